@@ -147,7 +147,7 @@ func literalValues() []named[func() cypher.Expression] {
 	}
 	return []named[func() cypher.Expression]{
 		{"query.Literal(0)", lit(0)}, {"query.Literal(-1)", lit(-1)}, {"query.Literal(1.0)", lit(1.0)}, {"query.Literal(1.5)", lit(1.5)},
-		{"query.Literal(1e21)", lit(1e21)}, {"query.Literal(int64(7))", lit(int64(7))}, {"query.Literal(true)", lit(true)}, {"query.Literal(nil)", lit(nil)},
+		{"query.Literal(1e21)", lit(1e21)}, {"query.Literal(int64(7))", lit(int64(7))}, {"query.Literal(int64(9007199254740993))", lit(int64(9007199254740993))}, {"query.Literal(true)", lit(true)}, {"query.Literal(nil)", lit(nil)},
 		{`cypher.NewStringLiteral("")`, str("")}, {`cypher.NewStringLiteral("a'b")`, str("a'b")}, {`cypher.NewStringLiteral("a\\")`, str(`a\`)},
 		{"cypher.NewStringListLiteral([])", func() cypher.Expression { return cypher.NewStringListLiteral([]string{}) }},
 		{`cypher.NewStringListLiteral(["a","b'c"])`, func() cypher.Expression { return cypher.NewStringListLiteral([]string{"a", "b'c"}) }},
@@ -302,8 +302,7 @@ var (
 // skeletons enumerates every term with 1..maxLeaves leaves (placeholders L0, L1, ... used once each, left to right),
 // every tree shape with list nodes of 2 or 3 operands, every labelling of the list nodes by listOps, and every placement
 // of at most maxUnary unary wrappers (on any node, stackable), inside the depth bound.
-func skeletons(maxLeaves, maxUnary, maxDepth int, lists, unaries []string) []*term {
-	var out []*term
+func skeletons(minLeaves, maxLeaves, maxUnary, maxDepth int, lists, unaries []string, yield func(*term)) {
 	// shapes[n] = all list-trees over n leaves (leaf indices assigned later)
 	type shape = *term
 	memo := map[int][]shape{}
@@ -344,7 +343,7 @@ func skeletons(maxLeaves, maxUnary, maxDepth int, lists, unaries []string) []*te
 		return res
 	}
 	clone := func(t *term) *term { return cloneTerm(t) }
-	for n := 1; n <= maxLeaves; n++ {
+	for n := minLeaves; n <= maxLeaves; n++ {
 		for _, s := range shapes(n) {
 			base := clone(s)
 			idx := 0
@@ -354,9 +353,10 @@ func skeletons(maxLeaves, maxUnary, maxDepth int, lists, unaries []string) []*te
 			nodes := countNodes(base)
 			var place func(start int, left int, cur *term)
 			place = func(start, left int, cur *term) {
-				if cur.depth() <= maxDepth {
-					out = append(out, cur)
+				if cur.depth() > maxDepth {
+					return // wrappers only deepen
 				}
+				yield(cur)
 				if left == 0 {
 					return
 				}
@@ -369,7 +369,6 @@ func skeletons(maxLeaves, maxUnary, maxDepth int, lists, unaries []string) []*te
 			place(0, maxUnary, base)
 		}
 	}
-	return out
 }
 
 func cloneTerm(t *term) *term {
